@@ -16,7 +16,15 @@ BASES = [
 
 def variants(rnd, base):
     """A triple of distinct, related identifiers built from `base`."""
-    kind = rnd.choice(["suffix", "prefix", "case", "double", "mixed"])
+    kind = rnd.choice(["suffix", "prefix", "case", "double", "mixed", "compose"])
+    if kind == "compose":
+        # canonically equivalent spellings are DIFFERENT identifiers (composed / decomposed /
+        # compatibility forms): e-acute, angstrom sign vs A-ring, a Hangul syllable vs its jamo
+        import unicodedata
+        w = base + rnd.choice(["caf\u00e9", "\u00c5ngstr\u00f6m", "\ud55c\uae00"])
+        out = [unicodedata.normalize("NFC", w), unicodedata.normalize("NFD", w),
+               base + rnd.choice(["\u212bngstr\u00f6m", "\ufb01", "\u2126"])]
+        return out
     if kind == "suffix":
         return [base, base + rnd.choice([".1", "/v2", "x", "_delete", "́"]), base + base[-1:] * 2]
     if kind == "prefix":
